@@ -542,3 +542,42 @@ PROPS['C10'] = {
                    'sequences and results of the real crate compared with the model, time bounds and early return checked with a second thread'),
     'level_note': 'Trusted: Lean kernel, translator (flag order, poll unit, event mask), harness; timer accuracy and kernel wake-up during poll are measured, not proved',
 }
+
+
+def stream_scen(nq, nt):
+    def f(tier, seed):
+        n = nt if tier == 'thorough' else nq
+        return [{'build': 'async', 'args': ['stream', '--seed', str(seed + k), '--n', str(n // 4), '--tier', tier]} for k in range(4)]
+    return f
+
+
+def search_stream(run):
+    for k in range(3):
+        rc, cases, err = vh(['stream', '--seed', str(80 + k), '--n', '150'], build='async', timeout=1200)
+        bad = [c for c in cases if c.get('oracle')]
+        if bad or rc != 0:
+            return {'implementation': bad[0] if bad else {'exit': rc, 'stderr': err[-800:]},
+                    'replay_cmd': f'harness/target-async/debug/vh stream --seed {80 + k} --n 150'}
+    return None
+
+
+PROPS['C20'] = {
+    'modules': ['IpcModel.Props.C20'],
+    'theorems': ['C20.C20_msg_forward', 'C20.C20_isolation', 'C20.C20_closed_ends', 'C20.C20_unknown_ignored'],
+    'builds': ['async'],
+    'scenarios': stream_scen(240, 6000),
+    'search': search_stream,
+    'rule': ('seeded scripts over 1..8 channels (every 7th case 13..32): 0..5 messages queued before to_stream, conversions issued concurrently from 1..4 threads, '
+             '0..7 messages afterwards from the original handle and 0..3 from a clone in another thread (a few multi-packet), all sender handles dropped (2/3 of channels, '
+             'sometimes before the conversion) or kept; one consumer thread per stream polling by hand with a counting waker and re-polling only after a wake-up; '
+             'per-stream yielded sequence and end-of-stream compared with Async.script and with the harness reference; non-trivial = more than one stream or a '
+             'Pending that was followed by a wake-up; distinct = distinct script'),
+    'explanation': ('routing thread of asynch.rs modelled as a pure processor of select batches plus a closed system of channels and client operations; forwarding, isolation, '
+                    'closure and ignored wake-ups proved as one-step theorems; real streams compared per stream with the model'),
+    'assumptions': ['futures::mpsc unbounded channels are FIFO, wake the receiving task on send and on drop of the last sender (trusted; exercised by the counting waker)',
+                    'the receiver set feeding the routing thread satisfies C06'],
+    'level_text': ('Kernel-checked one-step theorems for the routing thread (a message event is appended to exactly the stream registered for its id, other streams untouched, '
+                   'closure ends exactly that stream, wake-ups ignored); real IpcStreams created from many threads compared per stream with the executable model and checked '
+                   'for exactly-once, order, wake-up of the polling task and end-of-stream iff no sender remains'),
+    'level_note': 'Trusted: Lean kernel, harness; futures mpsc and waker delivery; end-to-end induction over histories is being extended (see DESIGN)',
+}
